@@ -19,7 +19,7 @@ package service
 //@ property C07 roots (*service).processUnsubscribe, (*service).processSubscribe, (*github.com/mdzio/go-mqtt/message.SubackMessage).AddReturnCodes, (*github.com/mdzio/go-mqtt/message.SubackMessage).AddReturnCode, (*github.com/mdzio/go-mqtt/message.SubscribeMessage).Decode, (*github.com/mdzio/go-mqtt/message.UnsubscribeMessage).Decode, (*github.com/mdzio/go-mqtt/message.SubackMessage).Encode, (*github.com/mdzio/go-mqtt/topics.Manager).Subscribe, (*github.com/mdzio/go-mqtt/topics.Manager).Unsubscribe
 //@ property C11 roots (*Server).handleConnection, (*Server).getSession, (*github.com/mdzio/go-mqtt/message.ConnectMessage).Decode, (*github.com/mdzio/go-mqtt/message.ConnectMessage).decodeMessage, (*github.com/mdzio/go-mqtt/message.ConnectMessage).validClientID, (*github.com/mdzio/go-mqtt/message.ConnackMessage).Encode
 //@ property C05 roots (*buffer).Close, (*buffer).Read, (*buffer).ReadPeek, (*buffer).ReadWait, (*buffer).ReadCommit, (*buffer).Write, (*buffer).WriteWait, (*buffer).WriteCommit, (*buffer).waitForWriteSpace, (*buffer).ReadFrom, (*buffer).WriteTo, (*service).onPublish, getMessageBuffer, getConnectMessage, (*service).peekMessageSize, (*service).peekMessage, (*github.com/mdzio/go-mqtt/message.ConnectMessage).Decode
-//@ property C08 roots (*service).start$1, (*service).processSubscribe, (*service).publish, (*github.com/mdzio/go-mqtt/message.PublishMessage).SetRetain, (*github.com/mdzio/go-mqtt/message.PublishMessage).SetQoS, (*github.com/mdzio/go-mqtt/topics.Manager).Retain, (*github.com/mdzio/go-mqtt/topics.Manager).Retained
+//@ property C08 roots (*service).start$1, (*service).onPublish, (*Server).Publish, (*service).processSubscribe, (*service).publish, (*github.com/mdzio/go-mqtt/message.PublishMessage).SetRetain, (*github.com/mdzio/go-mqtt/message.PublishMessage).SetQoS, (*github.com/mdzio/go-mqtt/message.PublishMessage).Clone, (*github.com/mdzio/go-mqtt/topics.Manager).Retain, (*github.com/mdzio/go-mqtt/topics.Manager).Retained, (*github.com/mdzio/go-mqtt/topics.MemTopics).Retain, (*github.com/mdzio/go-mqtt/topics.rnode).rinsert, (*github.com/mdzio/go-mqtt/topics.rnode).rremove
 //@ property C19 roots (*service).processIncoming, (*service).receiver, (timeoutReader).Read, (*service).stop, (*github.com/mdzio/go-mqtt/sessions.Session).Update
 //@ property C01 roots (*service).onPublish, (*Server).Publish, (*service).processUnsubscribe
 //@ property C17 roots (*service).writeMessage, (*stat).increment, (*buffer).WriteTo, (*buffer).ReadPeek, (*buffer).ReadCommit, (*buffer).ReadFrom
@@ -442,7 +442,7 @@ func vspecCovered(x int64, start int64, c int64, size int64) bool {
 //@ modset Log heap("GF.n3"), heap("GF.id3"), heap("GF.n4"), heap("GF.id4"), heap("GF.n5"), heap("GF.id5"), heap("GF.n6"), heap("GF.id6"), heap("GF.n7"), heap("GF.id7"), heap("GF.n8"), heap("GF.id8"), heap("GF.n9"), heap("GF.id9"), heap("GF.n10"), heap("GF.id10"), heap("GF.n11"), heap("GF.id11"), heap("GF.n12"), heap("GF.id12"), heap("GF.n13"), heap("GF.id13"), heap("GF.wfail")
 
 // The topic store (what Subscribe/Unsubscribe/Retain may change).
-//@ modset TopicStore allfields(topics.rnode), allfields(topics.snode), allfields(topics.MemTopics)
+//@ modset TopicStore allfields(topics.rnode), allfields(topics.snode), allfields(topics.MemTopics), allmaps(map[string]*topics.rnode), allmaps(map[string]*topics.snode), message.gPacketID, heap("GF.encn"), heap("GF.encarr"), heap("GF.encoff"), heap("GF.encAt"), heap("GF.nretain"), heap("GF.lastretain")
 
 //@ extern functype github.com/mdzio/go-mqtt/service.OnPublishFunc
 //@   flag yield
@@ -467,6 +467,7 @@ func vspecCovered(x int64, start int64, c int64, size int64) bool {
 //@   ensures[inv] vdefProc(p)
 //@   ensures[ghostdef-dlv] gfield(p, "ndlv") == old(gfield(p, "ndlv"))+1 && gfield(p, "lastdlv") == msg
 //@   ensures[C01:fanout] err == nil ==> gfield(0, "ncb") == old(gfield(0, "ncb"))+len(p.subs)
+//@   ensures[C08:retained-iff-flag] gfield(0, "nretain") == old(gfield(0, "nretain")) + ite(old(msg.mtypeflags[0])%2 == 1, 1, 0) && (old(msg.mtypeflags[0])%2 == 1 ==> gfield(0, "lastretain") == msg)
 //@   ensures[C01,C05:no-abort] err != nil ==> gfield(0, "ncb") == old(gfield(0, "ncb"))
 //@   modifies modset(Callback), msg.remlen, msg.dirty, msg.packetID, p.subs, p.qoss, capelems(p.subs), modset(TopicStore), gfield(p, "ndlv"), gfield(p, "lastdlv")
 
@@ -844,6 +845,8 @@ func vspecCovered(x int64, start int64, c int64, size int64) bool {
 //@   loop 1 invariant len(msg.mtypeflags) == 1 && gfield(0, "ncb") == old(gfield(0, "ncb"))+rangeindex+1 && rangeindex < len(rangeslice) && heldsame() && len(qoss) == len(rangeslice) && sameslice(rangeslice, subs)
 //@   ensures[C01:fanout] err == nil ==> gfield(0, "ncb") >= old(gfield(0, "ncb"))
 //@   ensures[C01,C05:no-abort] err != nil ==> gfield(0, "ncb") == old(gfield(0, "ncb"))
+//@   ensures[C08:retained-iff-flag] err == nil ==> gfield(0, "nretain") == old(gfield(0, "nretain")) + ite(old(msg.mtypeflags[0])%2 == 1, 1, 0) && (old(msg.mtypeflags[0])%2 == 1 ==> gfield(0, "lastretain") == msg)
+//@   ensures[C08:retained-only-flagged] old(msg.mtypeflags[0])%2 == 0 ==> gfield(0, "nretain") == old(gfield(0, "nretain"))
 //@   modifies modset(Callback), msg.remlen, msg.dirty, msg.packetID, modset(TopicStore), fields(svr), allelems(interface{})
 
 // ---------------------------------------------------------------- retained flag on forwarded messages (C08)
